@@ -35,6 +35,7 @@ pub struct Env {
 thread_local! {
     pub static ENV: std::cell::RefCell<Option<Env>> = std::cell::RefCell::new(None);
 }
+pub static SPAWNED_ENV: Mutex<Option<(Option<RespSpec>, Option<Vec<u8>>)>> = Mutex::new(None);
 pub static REPORT_FAILS: std::sync::atomic::AtomicBool = std::sync::atomic::AtomicBool::new(false);
 pub static LOG: Mutex<Vec<String>> = Mutex::new(Vec::new());
 pub static DEPTH_VIOLATIONS: Mutex<Vec<String>> = Mutex::new(Vec::new());
@@ -112,7 +113,10 @@ pub fn check_hook(_url: &str, req: PatchCheckRequest) -> anyhow::Result<PatchChe
         hx(&g("release_version")),
         extra
     ));
-    let resp = ENV.with(|e| e.borrow().as_ref().and_then(|e| e.resp.clone()));
+    let resp = match ENV.with(|e| e.borrow().as_ref().map(|e| e.resp.clone())) {
+        Some(r) => r,
+        None => SPAWNED_ENV.lock().unwrap().as_ref().and_then(|e| e.0.clone()),
+    };
     match &resp {
         None => anyhow::bail!("injected check failure"),
         Some(r) => Ok(PatchCheckResponse {
@@ -135,7 +139,10 @@ pub fn download_hook(url: &str) -> anyhow::Result<Vec<u8>> {
     if let Some(h) = h {
         h("download");
     }
-    let dl = ENV.with(|e| e.borrow().as_ref().and_then(|e| e.dl.clone()));
+    let dl = match ENV.with(|e| e.borrow().as_ref().map(|e| e.dl.clone())) {
+        Some(d) => d,
+        None => SPAWNED_ENV.lock().unwrap().as_ref().and_then(|e| e.1.clone()),
+    };
     match dl {
         None => anyhow::bail!("injected download failure"),
         Some(b) => Ok(b),
@@ -754,6 +761,39 @@ impl World {
                     crate::http::set_refuse(false);
                 }
                 o
+            }
+            ["check0", rest @ ..] => {
+                let (r, rest2) = parse_resp(rest);
+                let refuse = self.http_script(&r, &None, rest2);
+                Self::set_env(r, None);
+                let o = c_api::shorebird_check_for_update().to_string();
+                if refuse {
+                    crate::http::set_refuse(false);
+                }
+                o
+            }
+            [k @ ("update0" | "updatet"), rest @ ..] => {
+                let (r, rest2) = parse_resp(rest);
+                let dl = if rest2[0] == "err" {
+                    None
+                } else {
+                    Some(self.blob(rest2[0]))
+                };
+                let refuse = self.http_script(&r, &dl, &rest2[1..]);
+                if *k == "update0" {
+                    Self::set_env(r, dl);
+                    c_api::shorebird_update();
+                } else {
+                    // the update runs on a thread of the library's own: hand it the script through the global slot
+                    *SPAWNED_ENV.lock().unwrap() = Some((r, dl));
+                    c_api::shorebird_start_update_thread();
+                    wait_quiescent();
+                    *SPAWNED_ENV.lock().unwrap() = None;
+                }
+                if refuse {
+                    crate::http::set_refuse(false);
+                }
+                "unit".into()
             }
             ["update", ch, rest @ ..] => {
                 let (r, rest2) = parse_resp(rest);
